@@ -44,7 +44,7 @@ def substream(seed, label):
 
 
 class Task:
-    __slots__ = ('id', 'name', 'sem', 'state', 'pred', 'deadline', 'timed_out', 'thread', 'what', 'exact')
+    __slots__ = ('id', 'name', 'sem', 'state', 'pred', 'deadline', 'timed_out', 'thread', 'what', 'exact', 'held')
 
     def __init__(self, id, name):
         self.id, self.name = id, name
@@ -56,6 +56,7 @@ class Task:
         self.thread = None
         self.what = None
         self.exact = False
+        self.held = False
 
 
 class Sched:
